@@ -186,3 +186,6 @@ where
         }
     }
 }
+
+#[cfg(feature = "verif-hooks")]
+mod verif;
